@@ -181,6 +181,7 @@ func checkC11(c *Check) {
 	}
 	c.passiveNeverDials("C11.4 passive-never-dials")
 	c.passiveOption("C11.4 passive-option")
+	c.capturedVarDiscipline("C11.2 every-listener-served")
 	c.inboundLookup("C11.2 inbound-reaches-peer", "C11.2 inbound-reaches-peer")
 	c.dampPeerRule("C11.1 cease-not-damped")
 	c.peerManagerContracts("C11.2 manager-effects")
